@@ -491,8 +491,8 @@ func (o *cmC02) check(m *chainMachine, pre, post *cmSnap, what string, tx *cmTx)
 		// the same two clauses measured against the LEASE (market store), not the payment record:
 		// a payee never receives more than price x blocks the lease was open, and accrues exactly
 		// that while the lease is open and the account funded
-		if lid, isLease := mtypes.LeaseIDFromEscrowAccount(p.AccountID, p.PaymentID); isLease && p.AccountID.Scope == dtypes.EscrowScope {
-			if l, found := post.lease(lid); found {
+		if p.AccountID.Scope == dtypes.EscrowScope {
+			if l, found := post.leaseOfPayment(p.AccountID, p.PaymentID); found {
 				lastL, known := a.SettledAt, true
 				if l.State != mtypes.LeaseActive {
 					lastL, known = m.leaseEnded[k], m.leaseEnded[k] > 0
